@@ -1,1720 +1,4 @@
-//! Shared end-to-end runner (see notes/E2E.md and tools/e2e.py, which is the supported front end).
-//!
-//! Runs the REAL proxy listener (`gpa::proxy::proxy_server::ProxyServer` on a fresh
-//! `SharedState::start_all()` per scenario) against in-process mock metadata hosts (plain tokio
-//! TCP listeners that record raw bytes and answer with scripted raw bytes), driven by JSON
-//! scenarios: one scenario per stdin line, one result per line on the ORIGINAL stdout (fd 1 is
-//! re-pointed to `$E2E_SCRATCH/agent_stdout.log` first, because the agent `println!`s its console
-//! log).  No command-line arguments (DESIGN 1.7).  Environment:
-//!   E2E_SCRATCH   scratch directory (logs/, events/, keys/ are created below it)        [required]
-//!   E2E_MOCKS     comma separated ip:port list the mock hosts bind                      [default below]
-//!   E2E_THREADS   tokio worker threads (0 = current_thread runtime)                     [2]
-//!   E2E_FILE_LOG  "0" = do not install the agent's file loggers                         [1]
-//! Must run where the mock addresses can be bound (private netns, see tools/e2e.py).
-use gpa::key_keeper::key::{AuthorizationItem, Key};
-use gpa::proxy::proxy_server::ProxyServer;
-use gpa::redirector::verif_hooks as hooks;
-use gpa::shared_state::agent_status_wrapper::AgentStatusModule;
-use gpa::shared_state::SharedState;
-use proxy_agent_shared::proxy_agent_aggregate_status::ModuleState;
-use serde_json::{json, Value};
-use std::collections::HashMap;
-use std::io::Write;
-use std::net::{Ipv4Addr, SocketAddr};
-use std::os::unix::io::FromRawFd;
-use std::sync::atomic::Ordering;
-use std::sync::{Arc, Mutex};
-use std::time::Duration;
-use tokio::io::{AsyncReadExt, AsyncWriteExt};
-use tokio::net::{TcpListener, TcpSocket, TcpStream};
-use tokio::sync::Notify;
-
-const DEFAULT_MOCKS: &str =
-    "168.63.129.16:80,168.63.129.16:32526,169.254.169.254:80,10.9.8.7:80,127.0.0.1:18080";
-
-// ------------------------------------------------------------------------------------------
-// base64 (no such crate in the offline registry subset we depend on)
-// ------------------------------------------------------------------------------------------
-const B64: &[u8; 64] = b"ABCDEFGHIJKLMNOPQRSTUVWXYZabcdefghijklmnopqrstuvwxyz0123456789+/";
-
-fn b64e(data: &[u8]) -> String {
-    let mut out = String::with_capacity((data.len() + 2) / 3 * 4);
-    for c in data.chunks(3) {
-        let b = [c[0], *c.get(1).unwrap_or(&0), *c.get(2).unwrap_or(&0)];
-        let n = ((b[0] as u32) << 16) | ((b[1] as u32) << 8) | b[2] as u32;
-        out.push(B64[(n >> 18) as usize & 63] as char);
-        out.push(B64[(n >> 12) as usize & 63] as char);
-        out.push(if c.len() > 1 { B64[(n >> 6) as usize & 63] as char } else { '=' });
-        out.push(if c.len() > 2 { B64[n as usize & 63] as char } else { '=' });
-    }
-    out
-}
-
-fn b64d(s: &str) -> Result<Vec<u8>, String> {
-    let mut out = Vec::with_capacity(s.len() / 4 * 3);
-    let mut acc: u32 = 0;
-    let mut bits = 0;
-    for ch in s.bytes() {
-        let v = match ch {
-            b'A'..=b'Z' => ch - b'A',
-            b'a'..=b'z' => ch - b'a' + 26,
-            b'0'..=b'9' => ch - b'0' + 52,
-            b'+' | b'-' => 62,
-            b'/' | b'_' => 63,
-            b'=' | b'\n' | b'\r' | b' ' => continue,
-            _ => return Err(format!("bad base64 character {:?}", ch as char)),
-        };
-        acc = (acc << 6) | v as u32;
-        bits += 6;
-        if bits >= 8 {
-            bits -= 8;
-            out.push((acc >> bits) as u8);
-            acc &= (1 << bits) - 1;
-        }
-    }
-    Ok(out)
-}
-
-// ------------------------------------------------------------------------------------------
-// EXTENSIONS (C05/C14/C15): CRC-32 (IEEE, as Python's zlib.crc32) and the generated-body pattern
-// ------------------------------------------------------------------------------------------
-fn crc32_update(mut crc: u32, data: &[u8]) -> u32 {
-    static TABLE: std::sync::OnceLock<[u32; 256]> = std::sync::OnceLock::new();
-    let table = TABLE.get_or_init(|| {
-        let mut t = [0u32; 256];
-        for i in 0..256u32 {
-            let mut c = i;
-            for _ in 0..8 {
-                c = if c & 1 != 0 { 0xEDB8_8320 ^ (c >> 1) } else { c >> 1 };
-            }
-            t[i as usize] = c;
-        }
-        t
-    });
-    crc = !crc;
-    for &b in data {
-        crc = table[((crc ^ b as u32) & 0xff) as usize] ^ (crc >> 8);
-    }
-    !crc
-}
-
-/// byte i of a generated body: ((i mod 251) + seed) mod 256  (period 251, so every chunk size sees
-/// every phase; tools/e2e.py gen_body_bytes is the same function)
-fn pattern_fill(out: &mut Vec<u8>, start: u64, len: usize, seed: u64) {
-    out.clear();
-    out.reserve(len);
-    let mut ph = (start % 251) as u32;
-    let sd = (seed % 256) as u32;
-    for _ in 0..len {
-        out.push(((ph + sd) & 0xff) as u8);
-        ph += 1;
-        if ph == 251 {
-            ph = 0;
-        }
-    }
-}
-
-fn bytes_field(v: &Value, name: &str) -> Result<Option<Vec<u8>>, String> {
-    // `<name>_b64` (base64) or `<name>` (plain text) -- base64 wins
-    if let Some(s) = v.get(format!("{}_b64", name)).and_then(|x| x.as_str()) {
-        return b64d(s).map(Some);
-    }
-    if let Some(s) = v.get(name).and_then(|x| x.as_str()) {
-        return Ok(Some(s.as_bytes().to_vec()));
-    }
-    Ok(None)
-}
-
-// ------------------------------------------------------------------------------------------
-// minimal HTTP/1.1 message framing (shared by the mock hosts and the client side)
-// ------------------------------------------------------------------------------------------
-fn find(hay: &[u8], needle: &[u8], from: usize) -> Option<usize> {
-    if hay.len() < needle.len() || from > hay.len() - needle.len() {
-        return None;
-    }
-    (from..=hay.len() - needle.len()).find(|&i| &hay[i..i + needle.len()] == needle)
-}
-
-struct Head {
-    first_line: String,
-    content_length: Option<usize>,
-    chunked: bool,
-    end: usize, // offset just after the blank line
-}
-
-fn parse_head(buf: &[u8], from: usize) -> Option<Head> {
-    let he = find(buf, b"\r\n\r\n", from)?;
-    let text = String::from_utf8_lossy(&buf[from..he]).to_string();
-    let mut lines = text.split("\r\n");
-    let first_line = lines.next().unwrap_or("").to_string();
-    let mut content_length = None;
-    let mut chunked = false;
-    for l in lines {
-        if let Some(ix) = l.find(':') {
-            let (k, v) = (l[..ix].trim().to_ascii_lowercase(), l[ix + 1..].trim());
-            if k == "content-length" {
-                content_length = v.parse::<usize>().ok();
-            } else if k == "transfer-encoding" && v.to_ascii_lowercase().contains("chunked") {
-                chunked = true;
-            }
-        }
-    }
-    Some(Head { first_line, content_length, chunked, end: he + 4 })
-}
-
-/// offset just after a complete chunked body starting at `from`, or None when incomplete
-fn chunked_end(buf: &[u8], from: usize) -> Option<usize> {
-    let mut pos = from;
-    loop {
-        let le = find(buf, b"\r\n", pos)?;
-        let line = String::from_utf8_lossy(&buf[pos..le]).to_string();
-        let size_txt = line.split(';').next().unwrap_or("").trim().to_string();
-        let size = usize::from_str_radix(&size_txt, 16).ok()?;
-        pos = le + 2;
-        if size == 0 {
-            // trailers until an empty line
-            loop {
-                let te = find(buf, b"\r\n", pos)?;
-                if te == pos {
-                    return Some(pos + 2);
-                }
-                pos = te + 2;
-            }
-        }
-        if buf.len() < pos + size + 2 {
-            return None;
-        }
-        pos += size + 2;
-    }
-}
-
-// ------------------------------------------------------------------------------------------
-// mock hosts
-// ------------------------------------------------------------------------------------------
-#[derive(Default)]
-struct UpConn {
-    host: String,
-    peer_port: u16,
-    bytes: Vec<u8>,
-    requests: Vec<(usize, usize, usize)>, // (start, end of head, end of body) offsets into bytes
-    replies: usize,
-    closed: bool,
-    // EXTENSIONS: streaming mode (scenario "upstream_capture")
-    total: usize,            // all bytes received (== bytes.len() unless capped)
-    infos: Vec<Value>,       // per complete request: body_len, body_crc32, chunked, head_len
-}
-
-struct ScenarioRec {
-    conns: Mutex<Vec<UpConn>>,
-    replies: Mutex<HashMap<String, Vec<(Value, bool)>>>, // host -> [(spec, consumed)]
-    default_reply: Value,
-    notify: Notify,
-    capture: Option<usize>, // EXTENSIONS: Some(n) = streaming mock, keep the first n bytes per connection
-}
-
-static CURRENT: Mutex<Option<Arc<ScenarioRec>>> = Mutex::new(None);
-static STRAY: Mutex<usize> = Mutex::new(0);
-static PANICS: Mutex<Vec<String>> = Mutex::new(Vec::new());
-/// arrival counters of the `barrier` op (name -> participants arrived)
-static BARRIERS: Mutex<Option<HashMap<String, usize>>> = Mutex::new(None);
-/// directory of the scenario's ProxyAgentStatusTask (`status_task_ms`), None when none is running
-static STATUS_DIR: Mutex<Option<std::path::PathBuf>> = Mutex::new(None);
-
-fn build_reply(spec: &Value, head_request: bool) -> Vec<u8> {
-    if let Ok(Some(raw)) = bytes_field(spec, "raw") {
-        return raw;
-    }
-    let status = spec.get("status").and_then(|x| x.as_u64()).unwrap_or(200);
-    let reason = spec.get("reason").and_then(|x| x.as_str()).unwrap_or(match status {
-        200 => "OK",
-        404 => "Not Found",
-        500 => "Internal Server Error",
-        _ => "Status",
-    });
-    let body = bytes_field(spec, "body").ok().flatten().unwrap_or_else(|| b"mock-ok".to_vec());
-    let mut out = format!("HTTP/1.1 {} {}\r\n", status, reason).into_bytes();
-    let mut has_cl = false;
-    let mut has_te = false;
-    let mut has_headers = false;
-    if let Some(hs) = spec.get("headers").and_then(|x| x.as_array()) {
-        has_headers = true;
-        for h in hs {
-            let k = h.get(0).and_then(|x| x.as_str()).unwrap_or("");
-            let v = h.get(1).and_then(|x| x.as_str()).unwrap_or("");
-            match k.to_ascii_lowercase().as_str() {
-                "content-length" => has_cl = true,
-                "transfer-encoding" => has_te = true,
-                _ => {}
-            }
-            out.extend_from_slice(format!("{}: {}\r\n", k, v).as_bytes());
-        }
-    }
-    if !has_headers {
-        out.extend_from_slice(b"Content-Type: text/plain\r\n");
-    }
-    let chunk_sizes: Option<Vec<usize>> = spec.get("chunked").and_then(|x| x.as_array()).map(|a| {
-        a.iter().map(|n| n.as_u64().unwrap_or(1).max(1) as usize).collect()
-    });
-    let no_cl = spec.get("no_content_length").and_then(|x| x.as_bool()).unwrap_or(false);
-    if let Some(sizes) = chunk_sizes {
-        if !has_te {
-            out.extend_from_slice(b"Transfer-Encoding: chunked\r\n");
-        }
-        out.extend_from_slice(b"\r\n");
-        if !head_request {
-            let mut pos = 0;
-            let mut i = 0;
-            while pos < body.len() {
-                let want = if sizes.is_empty() { body.len() } else { sizes[i.min(sizes.len() - 1)] };
-                let n = want.min(body.len() - pos);
-                out.extend_from_slice(format!("{:x}\r\n", n).as_bytes());
-                out.extend_from_slice(&body[pos..pos + n]);
-                out.extend_from_slice(b"\r\n");
-                pos += n;
-                i += 1;
-            }
-            out.extend_from_slice(b"0\r\n\r\n");
-        }
-    } else {
-        if !has_cl && !no_cl {
-            out.extend_from_slice(format!("Content-Length: {}\r\n", body.len()).as_bytes());
-        }
-        out.extend_from_slice(b"\r\n");
-        if !head_request {
-            out.extend_from_slice(&body);
-        }
-    }
-    out
-}
-
-fn choose_reply(rec: &ScenarioRec, host: &str, request: &[u8]) -> Value {
-    let mut map = rec.replies.lock().unwrap();
-    if let Some(list) = map.get_mut(host) {
-        for (spec, consumed) in list.iter_mut() {
-            if *consumed {
-                continue;
-            }
-            if let Some(m) = spec.get("match").and_then(|x| x.as_str()) {
-                if find(request, m.as_bytes(), 0).is_none() {
-                    continue;
-                }
-            }
-            if !spec.get("sticky").and_then(|x| x.as_bool()).unwrap_or(false) {
-                *consumed = true;
-            }
-            return spec.clone();
-        }
-    }
-    rec.default_reply.clone()
-}
-
-async fn mock_conn(mut stream: TcpStream, host: String, peer_port: u16) {
-    let rec = match CURRENT.lock().unwrap().clone() {
-        Some(r) => r,
-        None => {
-            *STRAY.lock().unwrap() += 1;
-            return;
-        }
-    };
-    let ix = {
-        let mut conns = rec.conns.lock().unwrap();
-        conns.push(UpConn { host: host.clone(), peer_port, ..Default::default() });
-        conns.len() - 1
-    };
-    rec.notify.notify_waiters();
-    if let Some(cap) = rec.capture {
-        mock_conn_streaming(&mut stream, &rec, ix, &host, cap).await;
-        let _ = stream.shutdown().await;
-        drop(stream);
-        rec.conns.lock().unwrap()[ix].closed = true;
-        rec.notify.notify_waiters();
-        return;
-    }
-    let mut buf: Vec<u8> = Vec::new();
-    let mut pos = 0usize;
-    let mut tmp = vec![0u8; 65536];
-    'outer: loop {
-        let n = match stream.read(&mut tmp).await {
-            Ok(0) | Err(_) => break,
-            Ok(n) => n,
-        };
-        buf.extend_from_slice(&tmp[..n]);
-        {
-            let mut conns = rec.conns.lock().unwrap();
-            conns[ix].bytes.extend_from_slice(&tmp[..n]);
-            conns[ix].total += n;
-        }
-        loop {
-            let head = match parse_head(&buf, pos) {
-                Some(h) => h,
-                None => break,
-            };
-            let end = if head.chunked {
-                match chunked_end(&buf, head.end) {
-                    Some(e) => e,
-                    None => break,
-                }
-            } else {
-                let e = head.end + head.content_length.unwrap_or(0);
-                if buf.len() < e {
-                    break;
-                }
-                e
-            };
-            rec.conns.lock().unwrap()[ix].requests.push((pos, head.end, end));
-            let spec = choose_reply(&rec, &host, &buf[pos..end]);
-            pos = end;
-            if let Some(ms) = spec.get("delay_ms").and_then(|x| x.as_u64()) {
-                tokio::time::sleep(Duration::from_millis(ms)).await;
-            }
-            if spec.get("close_without_reply").and_then(|x| x.as_bool()).unwrap_or(false) {
-                break 'outer;
-            }
-            let is_head = head.first_line.starts_with("HEAD ");
-            let reply = build_reply(&spec, is_head);
-            if !write_segmented(&mut stream, &reply, &spec).await {
-                break 'outer;
-            }
-            let _ = stream.flush().await;
-            rec.conns.lock().unwrap()[ix].replies += 1;
-            if spec.get("close").and_then(|x| x.as_bool()).unwrap_or(false) {
-                break 'outer;
-            }
-        }
-    }
-    let _ = stream.shutdown().await;
-    drop(stream);
-    rec.conns.lock().unwrap()[ix].closed = true;
-    rec.notify.notify_waiters();
-}
-
-/// EXTENSIONS: write `data` in the TCP write sizes given by spec["write_sizes"] (last size repeats; a
-/// flush and a pause of spec["write_pause_ms"] (default 1) between writes); one write when absent
-async fn write_segmented<W: tokio::io::AsyncWrite + Unpin>(w: &mut W, data: &[u8], spec: &Value) -> bool {
-    let sizes = match spec.get("write_sizes").and_then(|x| x.as_array()) {
-        Some(a) if !a.is_empty() => a,
-        _ => return w.write_all(data).await.is_ok(),
-    };
-    let pause = spec.get("write_pause_ms").and_then(|x| x.as_u64()).unwrap_or(1);
-    let mut pos = 0usize;
-    let mut i = 0usize;
-    while pos < data.len() {
-        let want = sizes[i.min(sizes.len() - 1)].as_u64().unwrap_or(1).max(1) as usize;
-        let n = want.min(data.len() - pos);
-        if w.write_all(&data[pos..pos + n]).await.is_err() {
-            return false;
-        }
-        let _ = w.flush().await;
-        pos += n;
-        i += 1;
-        if pos < data.len() {
-            if pause > 0 {
-                tokio::time::sleep(Duration::from_millis(pause)).await;
-            } else {
-                tokio::task::yield_now().await;
-            }
-        }
-    }
-    true
-}
-
-/// EXTENSIONS: incremental request parser for the streaming mock (scenario "upstream_capture")
-enum PState {
-    Head,
-    Cl(usize),
-    ChSize,
-    ChData(usize),
-    ChDataEnd(u8),
-    ChTrailer,
-}
-
-struct SParser {
-    state: PState,
-    hbuf: Vec<u8>,
-    line: Vec<u8>,
-    body_len: u64,
-    crc: u32,
-    chunked: bool,
-    chunks: u64,
-    offset: usize, // stream offset of the next byte to be consumed
-    start: usize,
-    head_end: usize,
-}
-
-struct SDone {
-    start: usize,
-    head_end: usize,
-    end: usize,
-    head: Vec<u8>,
-    body_len: u64,
-    crc: u32,
-    chunked: bool,
-    chunks: u64,
-}
-
-impl SParser {
-    fn new() -> Self {
-        SParser { state: PState::Head, hbuf: Vec::new(), line: Vec::new(), body_len: 0, crc: 0, chunked: false, chunks: 0,
-                  offset: 0, start: 0, head_end: 0 }
-    }
-    fn finish(&mut self) -> SDone {
-        let d = SDone { start: self.start, head_end: self.head_end, end: self.offset, head: std::mem::take(&mut self.hbuf),
-                        body_len: self.body_len, crc: self.crc, chunked: self.chunked, chunks: self.chunks };
-        self.state = PState::Head;
-        self.body_len = 0;
-        self.crc = 0;
-        self.chunked = false;
-        self.chunks = 0;
-        self.line.clear();
-        d
-    }
-    /// consume from data[*pos..] until one request is complete (Some) or the data is used up (None)
-    fn feed(&mut self, data: &[u8], pos: &mut usize) -> Option<SDone> {
-        while *pos < data.len() {
-            match self.state {
-                PState::Head => {
-                    if self.hbuf.is_empty() {
-                        self.start = self.offset;
-                    }
-                    self.hbuf.push(data[*pos]);
-                    *pos += 1;
-                    self.offset += 1;
-                    if self.hbuf.ends_with(b"\r\n\r\n") {
-                        self.head_end = self.offset;
-                        let head = parse_head(&self.hbuf, 0);
-                        let (cl, ch) = head.map(|h| (h.content_length.unwrap_or(0), h.chunked)).unwrap_or((0, false));
-                        self.chunked = ch;
-                        if ch {
-                            self.state = PState::ChSize;
-                        } else if cl > 0 {
-                            self.state = PState::Cl(cl);
-                        } else {
-                            return Some(self.finish());
-                        }
-                    }
-                }
-                PState::Cl(rem) | PState::ChData(rem) => {
-                    let n = rem.min(data.len() - *pos);
-                    self.crc = crc32_update(self.crc, &data[*pos..*pos + n]);
-                    self.body_len += n as u64;
-                    *pos += n;
-                    self.offset += n;
-                    let left = rem - n;
-                    let was_cl = matches!(self.state, PState::Cl(_));
-                    if left == 0 {
-                        if was_cl {
-                            return Some(self.finish());
-                        }
-                        self.state = PState::ChDataEnd(2);
-                    } else if was_cl {
-                        self.state = PState::Cl(left);
-                    } else {
-                        self.state = PState::ChData(left);
-                    }
-                }
-                PState::ChDataEnd(k) => {
-                    *pos += 1;
-                    self.offset += 1;
-                    self.state = if k <= 1 { PState::ChSize } else { PState::ChDataEnd(k - 1) };
-                }
-                PState::ChSize => {
-                    let b = data[*pos];
-                    *pos += 1;
-                    self.offset += 1;
-                    if b == b'\n' {
-                        let txt = String::from_utf8_lossy(&self.line).to_string();
-                        let size = usize::from_str_radix(txt.split(';').next().unwrap_or("").trim(), 16).unwrap_or(0);
-                        self.line.clear();
-                        if size == 0 {
-                            self.state = PState::ChTrailer;
-                        } else {
-                            self.chunks += 1;
-                            self.state = PState::ChData(size);
-                        }
-                    } else {
-                        self.line.push(b);
-                    }
-                }
-                PState::ChTrailer => {
-                    let b = data[*pos];
-                    *pos += 1;
-                    self.offset += 1;
-                    if b == b'\n' {
-                        let empty = self.line.iter().all(|c| *c == b'\r');
-                        self.line.clear();
-                        if empty {
-                            return Some(self.finish());
-                        }
-                    } else {
-                        self.line.push(b);
-                    }
-                }
-            }
-        }
-        None
-    }
-}
-
-async fn mock_conn_streaming(stream: &mut TcpStream, rec: &Arc<ScenarioRec>, ix: usize, host: &str, cap: usize) {
-    let mut parser = SParser::new();
-    let mut tmp = vec![0u8; 1 << 18];
-    'outer: loop {
-        let n = match stream.read(&mut tmp).await {
-            Ok(0) | Err(_) => break,
-            Ok(n) => n,
-        };
-        {
-            let mut conns = rec.conns.lock().unwrap();
-            let c = &mut conns[ix];
-            if c.bytes.len() < cap {
-                let k = (cap - c.bytes.len()).min(n);
-                c.bytes.extend_from_slice(&tmp[..k]);
-            }
-            c.total += n;
-        }
-        let mut pos = 0usize;
-        while let Some(done) = parser.feed(&tmp[..n], &mut pos) {
-            {
-                let mut conns = rec.conns.lock().unwrap();
-                conns[ix].requests.push((done.start, done.head_end, done.end));
-                conns[ix].infos.push(json!({"start": done.start, "head_end": done.head_end, "end": done.end,
-                    "head_b64": b64e(&done.head), "body_len": done.body_len, "body_crc32": done.crc,
-                    "chunked": done.chunked, "chunks": done.chunks}));
-            }
-            let spec = choose_reply(rec, host, &done.head);
-            if let Some(ms) = spec.get("delay_ms").and_then(|x| x.as_u64()) {
-                tokio::time::sleep(Duration::from_millis(ms)).await;
-            }
-            if spec.get("close_without_reply").and_then(|x| x.as_bool()).unwrap_or(false) {
-                break 'outer;
-            }
-            let reply = build_reply(&spec, done.head.starts_with(b"HEAD "));
-            if !write_segmented(stream, &reply, &spec).await {
-                break 'outer;
-            }
-            let _ = stream.flush().await;
-            rec.conns.lock().unwrap()[ix].replies += 1;
-            if spec.get("close").and_then(|x| x.as_bool()).unwrap_or(false) {
-                break 'outer;
-            }
-        }
-    }
-}
-
-async fn mock_listener(listener: TcpListener, host: String) {
-    loop {
-        if let Ok((stream, peer)) = listener.accept().await {
-            let _ = stream.set_nodelay(true);
-            tokio::spawn(mock_conn(stream, host.clone(), peer.port()));
-        }
-    }
-}
-
-// ------------------------------------------------------------------------------------------
-// scenario state
-// ------------------------------------------------------------------------------------------
-struct Env {
-    mocks: Vec<String>, // the addresses actually bound
-    helper_pid: u32,
-}
-
-// ------------------------------------------------------------------------------------------
-// exec helpers: scenario field `exec_helpers: {name: [argv...]}` spawns `sh -c 'read x; exec "$@"' sh argv...`
-// (a process whose image is the shell until told otherwise); audit `pid: name` uses its pid; op
-// {"op": "helper_exec", "name"} makes it exec argv (same pid, new image) and waits until /proc/<pid>/exe
-// has changed.  Result `helpers: {name: {pid, exe_before, exe_after}}`.
-// ------------------------------------------------------------------------------------------
-struct ExecHelper {
-    child: std::process::Child,
-    exe_before: String,
-    exe_after: Option<String>,
-}
-static HELPERS: Mutex<Vec<(String, ExecHelper)>> = Mutex::new(Vec::new());
-
-fn proc_exe(pid: u32) -> String {
-    std::fs::read_link(format!("/proc/{}/exe", pid)).map(|p| p.to_string_lossy().to_string()).unwrap_or_default()
-}
-
-fn kill_helpers() {
-    for (_, mut h) in HELPERS.lock().unwrap().drain(..) {
-        let _ = h.child.kill();
-        let _ = h.child.wait();
-    }
-}
-
-async fn spawn_exec_helper(name: &str, argv: &Value) -> Result<(), String> {
-    let args: Vec<String> = argv.as_array().map(|a| a.iter().filter_map(|x| x.as_str().map(|s| s.to_string())).collect()).unwrap_or_default();
-    if args.is_empty() {
-        return Err(format!("exec_helpers.{}: argv missing", name));
-    }
-    let child = std::process::Command::new("sh")
-        .arg("-c").arg("read x; exec \"$@\"").arg("sh").args(&args)
-        .stdin(std::process::Stdio::piped()).stdout(std::process::Stdio::null()).stderr(std::process::Stdio::null())
-        .spawn().map_err(|e| format!("exec_helpers.{}: {}", name, e))?;
-    let pid = child.id();
-    let mut exe = String::new();
-    for _ in 0..2000 {
-        exe = proc_exe(pid);
-        // right after fork the image is still the driver's; wait for the shell
-        if !exe.is_empty() && exe != proc_exe(std::process::id()) {
-            break;
-        }
-        tokio::time::sleep(Duration::from_millis(1)).await;
-    }
-    HELPERS.lock().unwrap().push((name.to_string(), ExecHelper { child, exe_before: exe, exe_after: None }));
-    Ok(())
-}
-
-async fn helper_exec(name: &str) -> Result<(), String> {
-    let (pid, before) = {
-        let mut hs = HELPERS.lock().unwrap();
-        let h = hs.iter_mut().find(|(n, _)| n == name).ok_or(format!("helper_exec: no exec helper {:?}", name))?;
-        let mut stdin = h.1.child.stdin.take().ok_or("helper_exec: already told to exec")?;
-        stdin.write_all(b"go\n").map_err(|e| e.to_string())?;
-        drop(stdin);
-        (h.1.child.id(), h.1.exe_before.clone())
-    };
-    for _ in 0..5000 {
-        let now = proc_exe(pid);
-        if !now.is_empty() && now != before {
-            let mut hs = HELPERS.lock().unwrap();
-            if let Some(h) = hs.iter_mut().find(|(n, _)| n == name) {
-                h.1.exe_after = Some(now);
-            }
-            return Ok(());
-        }
-        tokio::time::sleep(Duration::from_millis(1)).await;
-    }
-    Err(format!("helper_exec: the image of {} did not change", name))
-}
-
-fn audit_record(a: &Value, env: &Env) -> Result<hooks::Record, String> {
-    let uid = a.get("uid").and_then(|x| x.as_u64()).unwrap_or(0);
-    let pid = match a.get("pid") {
-        Some(Value::String(s)) if s == "self" => std::process::id(),
-        Some(Value::String(s)) if s == "helper" => env.helper_pid,
-        Some(Value::String(s)) => match HELPERS.lock().unwrap().iter().find(|(n, _)| n == s) {
-            Some((_, h)) => h.child.id(),
-            None => return Err(format!("audit.pid: no exec helper named {:?}", s)),
-        },
-        Some(Value::Number(n)) => n.as_u64().unwrap_or(0) as u32,
-        None | Some(Value::Null) => std::process::id(),
-        Some(other) => return Err(format!("audit.pid: unsupported value {}", other)),
-    };
-    let is_admin = a.get("is_admin").and_then(|x| x.as_i64()).unwrap_or(0) as i32;
-    let ip: Ipv4Addr = a
-        .get("dest_ip")
-        .and_then(|x| x.as_str())
-        .ok_or("audit.dest_ip missing")?
-        .parse()
-        .map_err(|e| format!("audit.dest_ip: {}", e))?;
-    let port = a.get("dest_port").and_then(|x| x.as_u64()).ok_or("audit.dest_port missing")? as u16;
-    Ok((uid, pid, is_admin, u32::from(ip).to_be(), port.to_be()))
-}
-
-fn record_json(r: &hooks::Record) -> Value {
-    json!({"uid": r.0, "pid": r.1, "is_admin": r.2,
-           "dest_ip": Ipv4Addr::from_bits(r.3.to_be()).to_string(), "dest_port": u16::from_be(r.4)})
-}
-
-fn record_dest(r: &hooks::Record) -> String {
-    format!("{}:{}", Ipv4Addr::from_bits(r.3.to_be()), u16::from_be(r.4))
-}
-
-fn trace_json(t: Vec<hooks::Event>) -> Value {
-    Value::Array(
-        t.into_iter()
-            .map(|e| match e {
-                hooks::Event::Lookup { port, found } => json!({"ev": "lookup", "port": port, "found": found}),
-                hooks::Event::Remove { port, found, failed } => {
-                    json!({"ev": "remove", "port": port, "found": found, "failed": failed})
-                }
-                hooks::Event::Policy { endpoint, redirect } => {
-                    json!({"ev": "policy", "endpoint": endpoint, "redirect": redirect})
-                }
-            })
-            .collect(),
-    )
-}
-
-async fn summaries(shared: &SharedState) -> Value {
-    let st = shared.get_agent_status_shared_state();
-    let conv = |v: Vec<proxy_agent_shared::proxy_agent_aggregate_status::ProxyConnectionSummary>| {
-        let mut items: Vec<Value> = v
-            .into_iter()
-            .map(|s| {
-                json!({"userName": s.userName, "ip": s.ip, "port": s.port, "processCmdLine": s.processCmdLine,
-                       "responseStatus": s.responseStatus, "count": s.count, "userGroups": s.userGroups,
-                       "processFullPath": s.processFullPath})
-            })
-            .collect();
-        items.sort_by_key(|x| x.to_string());
-        Value::Array(items)
-    };
-    let failed = match st.get_all_failed_connection_summary().await {
-        Ok(v) => conv(v),
-        Err(e) => json!({"error": e.to_string()}),
-    };
-    let ok = match st.get_all_connection_summary().await {
-        Ok(v) => conv(v),
-        Err(e) => json!({"error": e.to_string()}),
-    };
-    let http_count = st.get_connection_count().await.map(|n| n as u64).unwrap_or(u64::MAX);
-    json!({"failed": failed, "ok": ok, "http_connection_count": http_count})
-}
-
-/// The fragment of status.json a real `ProxyAgentStatusTask` (scenario field `status_task_ms`) publishes.
-/// Waits until the file has been completely rewritten TWICE after this call (its "timestamp" changed
-/// twice; the write is temp-file + rename), so that what is returned was computed after the call.
-/// Null when no task is running.
-async fn status_json() -> Value {
-    let dir = match STATUS_DIR.lock().unwrap().clone() {
-        Some(d) => d,
-        None => return Value::Null,
-    };
-    let path = dir.join("status.json");
-    let read = |p: &std::path::Path| -> Option<Value> {
-        std::fs::read(p).ok().and_then(|b| serde_json::from_slice::<Value>(&b).ok())
-    };
-    let stamp = |v: &Option<Value>| -> Option<String> {
-        v.as_ref().and_then(|x| x.get("timestamp")).and_then(|t| t.as_str()).map(|t| t.to_string())
-    };
-    let mut last = stamp(&read(&path));
-    let mut changes = 0;
-    let t0 = std::time::Instant::now();
-    while t0.elapsed() < Duration::from_secs(5) {
-        tokio::time::sleep(Duration::from_millis(1)).await;
-        let cur = read(&path);
-        let ts = stamp(&cur);
-        if ts.is_some() && ts != last {
-            changes += 1;
-            last = ts;
-            if changes >= 2 {
-                let v = cur.unwrap();
-                let conv = |key: &str| -> Value {
-                    let mut items: Vec<Value> = v.get(key).and_then(|x| x.as_array()).cloned().unwrap_or_default();
-                    items.sort_by_key(|x| x.to_string());
-                    Value::Array(items)
-                };
-                return json!({"failed": conv("failedAuthenticateSummary"), "ok": conv("proxyConnectionSummary"),
-                              "timestamp": v.get("timestamp").cloned().unwrap_or(Value::Null),
-                              "has_failed_field": v.get("failedAuthenticateSummary").is_some(),
-                              "has_ok_field": v.get("proxyConnectionSummary").is_some()});
-            }
-        }
-    }
-    json!({"error": format!("status.json in {} was not rewritten twice within 5 s", dir.display())})
-}
-
-fn snapshot_json() -> Value {
-    Value::Array(hooks::snapshot().iter().map(|(p, r)| json!([p, record_json(r)])).collect())
-}
-
-async fn set_rules(shared: &SharedState, endpoint: &str, item: &Value) -> Result<(), String> {
-    let parsed: Option<AuthorizationItem> = if item.is_null() {
-        None
-    } else {
-        Some(serde_json::from_value(item.clone()).map_err(|e| format!("rules for {}: {}", endpoint, e))?)
-    };
-    let kk = shared.get_key_keeper_shared_state();
-    let r = match endpoint {
-        "wireserver" => kk.set_wireserver_rules(parsed).await,
-        "imds" => kk.set_imds_rules(parsed).await,
-        "hostga" => kk.set_hostga_rules(parsed).await,
-        other => return Err(format!("unknown endpoint {}", other)),
-    };
-    r.map_err(|e| e.to_string())
-}
-
-async fn set_key(shared: &SharedState, k: &Value) -> Result<(), String> {
-    let kk = shared.get_key_keeper_shared_state();
-    if k.is_null() {
-        return kk.clear_key().await.map_err(|e| e.to_string());
-    }
-    let mut doc = json!({
-        "authorizationScheme": "Azure-HMAC-SHA256",
-        "guid": k.get("guid").and_then(|x| x.as_str()).unwrap_or("00000000-0000-0000-0000-000000000001"),
-        "issued": k.get("issued").and_then(|x| x.as_str()).unwrap_or("2024-01-01T00:00:00Z"),
-        "key": k.get("key").and_then(|x| x.as_str()).unwrap_or(""),
-    });
-    if let Some(n) = k.get("incarnation").and_then(|x| x.as_u64()) {
-        doc["incarnationId"] = json!(n);
-    }
-    let key: Key = serde_json::from_value(doc).map_err(|e| format!("key: {}", e))?;
-    kk.update_key(key).await.map_err(|e| e.to_string())
-}
-
-// ------------------------------------------------------------------------------------------
-// killable actors (C01: the two 500 paths of the handler need a dead actor).  Scenario field
-// `killable: ["key_keeper" | "agent_status"]` puts that actor's task on a runtime of its own and
-// swaps its handle into the SharedState; op {"op": "kill_actor", "actor": ...} shuts that runtime
-// down, after which every call on the handle returns Err (send/receive error), exactly as when the
-// actor task has died in production.  The SharedState fields are private and there is no
-// constructor from parts, so the handle (one pointer: a newtype over mpsc::Sender) is located in
-// the struct by its value and overwritten; the layout facts relied upon are checked at run time
-// and the scenario fails with "killable: ..." instead of guessing when they do not hold.
-// ------------------------------------------------------------------------------------------
-static KILLABLE: Mutex<Vec<(String, tokio::runtime::Runtime)>> = Mutex::new(Vec::new());
-
-fn swap_handle<S, T>(holder: &mut S, probe: T, new: T) -> Result<(), String> {
-    use std::mem::{size_of, transmute_copy};
-    if size_of::<T>() != size_of::<usize>() || size_of::<S>() % size_of::<usize>() != 0
-        || std::mem::align_of::<S>() < std::mem::align_of::<usize>() {
-        return Err("killable: actor handle is not a single pointer in this build".to_string());
-    }
-    unsafe {
-        let old: usize = transmute_copy(&probe);
-        let base = holder as *mut S as *mut usize;
-        let n = size_of::<S>() / size_of::<usize>();
-        let hits: Vec<usize> = (0..n).filter(|i| *base.add(*i) == old).collect();
-        if hits.len() != 1 {
-            return Err(format!("killable: handle found {} times in SharedState", hits.len()));
-        }
-        let newp: usize = transmute_copy(&new);
-        std::mem::forget(new);
-        *base.add(hits[0]) = newp;
-        let displaced: T = transmute_copy(&old); // the clone that lived in the struct: now ours to drop
-        drop(displaced);
-    }
-    drop(probe);
-    Ok(())
-}
-
-fn make_killable(shared: &mut SharedState, actor: &str) -> Result<(), String> {
-    use gpa::shared_state::agent_status_wrapper::AgentStatusSharedState;
-    use gpa::shared_state::key_keeper_wrapper::KeyKeeperSharedState;
-    let rt = tokio::runtime::Builder::new_multi_thread().worker_threads(1).enable_all().build().map_err(|e| format!("killable: {}", e))?;
-    let r = match actor {
-        "key_keeper" => {
-            let h = { let _g = rt.enter(); KeyKeeperSharedState::start_new() };
-            let want: usize = unsafe { std::mem::transmute_copy(&h) };
-            let probe = shared.get_key_keeper_shared_state();
-            swap_handle(shared, probe, h).and_then(|_| {
-                let got: usize = unsafe { std::mem::transmute_copy(&shared.get_key_keeper_shared_state()) };
-                // (the temporary clone above is dropped normally; only its pointer value is read)
-                if got == want { Ok(()) } else { Err("killable: swap not effective".to_string()) }
-            })
-        }
-        "agent_status" => {
-            let h = { let _g = rt.enter(); AgentStatusSharedState::start_new() };
-            let want: usize = unsafe { std::mem::transmute_copy(&h) };
-            let probe = shared.get_agent_status_shared_state();
-            swap_handle(shared, probe, h).and_then(|_| {
-                let got: usize = unsafe { std::mem::transmute_copy(&shared.get_agent_status_shared_state()) };
-                if got == want { Ok(()) } else { Err("killable: swap not effective".to_string()) }
-            })
-        }
-        other => Err(format!("killable: unknown actor {:?}", other)),
-    };
-    match r {
-        Ok(()) => {
-            KILLABLE.lock().unwrap().push((actor.to_string(), rt));
-            Ok(())
-        }
-        Err(e) => {
-            rt.shutdown_background();
-            Err(e)
-        }
-    }
-}
-
-async fn kill_actor(shared: &SharedState, actor: &str) -> Result<(), String> {
-    let rt = {
-        let mut k = KILLABLE.lock().unwrap();
-        match k.iter().position(|(a, _)| a == actor) {
-            Some(i) => k.remove(i).1,
-            None => return Err(format!("kill_actor: {:?} is not listed in the scenario's `killable`", actor)),
-        }
-    };
-    let _ = tokio::task::spawn_blocking(move || rt.shutdown_timeout(Duration::from_secs(5))).await;
-    for _ in 0..2000 {
-        let dead = match actor {
-            "key_keeper" => shared.get_key_keeper_shared_state().get_wireserver_rules().await.is_err(),
-            _ => shared.get_agent_status_shared_state().get_connection_count().await.is_err(),
-        };
-        if dead {
-            return Ok(());
-        }
-        tokio::time::sleep(Duration::from_millis(1)).await;
-    }
-    Err(format!("kill_actor: {} still answers", actor))
-}
-
-async fn run_ops(ops: Option<&Value>, shared: &SharedState, env: &Env, snaps: &Mutex<Vec<Value>>) -> Result<(), String> {
-    let list = match ops.and_then(|x| x.as_array()) {
-        Some(l) => l,
-        None => return Ok(()),
-    };
-    for op in list {
-        let name = op.get("op").and_then(|x| x.as_str()).unwrap_or("");
-        match name {
-            "update_key" => set_key(shared, op).await?,
-            "clear_key" => set_key(shared, &Value::Null).await?,
-            "set_rules" => {
-                set_rules(shared, op.get("endpoint").and_then(|x| x.as_str()).unwrap_or(""),
-                          op.get("item").unwrap_or(&Value::Null)).await?
-            }
-            "fail_remove" => hooks::FAIL_REMOVE.store(op.get("value").and_then(|x| x.as_bool()).unwrap_or(true), Ordering::SeqCst),
-            "insert_audit" => {
-                let port = op.get("port").and_then(|x| x.as_u64()).ok_or("insert_audit.port")? as u16;
-                hooks::insert(port, audit_record(op.get("audit").unwrap_or(&Value::Null), env)?);
-            }
-            "remove_audit" => {
-                let port = op.get("port").and_then(|x| x.as_u64()).ok_or("remove_audit.port")? as u16;
-                hooks::AUDIT.lock().unwrap().remove(&port);
-            }
-            "helper_exec" => helper_exec(op.get("name").and_then(|x| x.as_str()).unwrap_or("")).await?,
-            "kill_actor" => kill_actor(shared, op.get("actor").and_then(|x| x.as_str()).unwrap_or("")).await?,
-            "clear_summary" => shared.get_agent_status_shared_state().clear_all_summary().await.map_err(|e| e.to_string())?,
-            "barrier" => {
-                // rendezvous of concurrent client connections: continue when `n` participants have arrived at `name`
-                let name = op.get("name").and_then(|x| x.as_str()).unwrap_or("barrier").to_string();
-                let n = op.get("n").and_then(|x| x.as_u64()).unwrap_or(1) as usize;
-                let limit = Duration::from_millis(op.get("timeout_ms").and_then(|x| x.as_u64()).unwrap_or(60000));
-                {
-                    let mut b = BARRIERS.lock().unwrap();
-                    *b.get_or_insert_with(HashMap::new).entry(name.clone()).or_insert(0) += 1;
-                }
-                let t0 = std::time::Instant::now();
-                loop {
-                    let arrived = BARRIERS.lock().unwrap().as_ref().and_then(|m| m.get(&name).copied()).unwrap_or(0);
-                    if arrived >= n || t0.elapsed() > limit {
-                        break;
-                    }
-                    tokio::time::sleep(Duration::from_millis(1)).await;
-                }
-            }
-            "wait_trace" => {
-                // wait until the accept processing of the n-th connection from `port` is over: `lookups` lookup
-                // events for the port are in the H1 trace and every lookup that found an entry has its remove event
-                let port = op.get("port").and_then(|x| x.as_u64()).ok_or("wait_trace.port")? as u16;
-                let want = op.get("lookups").and_then(|x| x.as_u64()).unwrap_or(1) as usize;
-                let limit = Duration::from_millis(op.get("timeout_ms").and_then(|x| x.as_u64()).unwrap_or(3000));
-                let t0 = std::time::Instant::now();
-                loop {
-                    let (lookups, found, removes) = {
-                        let tr = hooks::TRACE.lock().unwrap();
-                        let mut l = 0usize;
-                        let mut f = 0usize;
-                        let mut r = 0usize;
-                        for e in tr.iter() {
-                            match e {
-                                hooks::Event::Lookup { port: p, found } if *p == port => {
-                                    l += 1;
-                                    if *found {
-                                        f += 1;
-                                    }
-                                }
-                                hooks::Event::Remove { port: p, .. } if *p == port => r += 1,
-                                _ => {}
-                            }
-                        }
-                        (l, f, r)
-                    };
-                    if (lookups >= want && removes >= found) || t0.elapsed() > limit {
-                        break;
-                    }
-                    tokio::time::sleep(Duration::from_millis(1)).await;
-                }
-            }
-            "sleep_ms" => tokio::time::sleep(Duration::from_millis(op.get("ms").and_then(|x| x.as_u64()).unwrap_or(1))).await,
-            "snapshot" => {
-                let s = json!({"label": op.get("label").cloned().unwrap_or(Value::Null),
-                               "audit_map": snapshot_json(), "summary": summaries(shared).await,
-                               "status_json": status_json().await});
-                snaps.lock().unwrap().push(s);
-            }
-            other => return Err(format!("unknown op {:?}", other)),
-        }
-    }
-    Ok(())
-}
-
-// ------------------------------------------------------------------------------------------
-// client side
-// ------------------------------------------------------------------------------------------
-/// read one complete HTTP response (skipping 1xx interim ones) from `stream`; `buf` carries
-/// bytes already read beyond the previous message
-async fn read_response<R: tokio::io::AsyncRead + Unpin>(stream: &mut R, buf: &mut Vec<u8>, head_request: bool, timeout: Duration) -> Value {
-    let mut tmp = vec![0u8; 65536];
-    let mut start = 0usize; // start of the current (possibly interim) message inside buf
-    let mut eof = false;
-    let mut timed_out = false;
-    loop {
-        // try to complete a message from what we have
-        let mut need_more = true;
-        if let Some(head) = parse_head(buf, start) {
-            let status: u16 = head.first_line.split(' ').nth(1).and_then(|s| s.parse().ok()).unwrap_or(0);
-            let no_body = head_request || (100..200).contains(&status) || status == 204 || status == 304;
-            let end = if no_body {
-                Some(head.end)
-            } else if head.chunked {
-                chunked_end(buf, head.end)
-            } else if let Some(cl) = head.content_length {
-                if buf.len() >= head.end + cl { Some(head.end + cl) } else { None }
-            } else if eof {
-                Some(buf.len()) // body delimited by close
-            } else {
-                None
-            };
-            if let Some(end) = end {
-                if (100..200).contains(&status) && status != 101 {
-                    start = end; // interim response: keep its bytes, continue with the next message
-                    need_more = buf.len() <= start;
-                    if !need_more {
-                        continue;
-                    }
-                } else {
-                    let raw: Vec<u8> = buf.drain(..end).collect();
-                    return json!({"complete": true, "status": status, "raw_b64": b64e(&raw)});
-                }
-            }
-        }
-        if eof || timed_out || !need_more {
-            let raw: Vec<u8> = buf.drain(..).collect();
-            return json!({"complete": false, "status": Value::Null, "raw_b64": b64e(&raw), "eof": eof, "timeout": timed_out});
-        }
-        match tokio::time::timeout(timeout, stream.read(&mut tmp)).await {
-            Err(_) => timed_out = true,
-            Ok(Ok(0)) | Ok(Err(_)) => eof = true,
-            Ok(Ok(n)) => buf.extend_from_slice(&tmp[..n]),
-        }
-    }
-}
-
-/// EXTENSIONS: one request written piecewise WHILE the response is being read (so that an early
-/// answer -- 413 before the body is consumed -- is seen even when the proxy then resets the
-/// connection).  `raw` is written first (in spec["write_sizes"] pieces when given), then the body
-/// described by spec["gen_body"] = {len, seed, chunk_sizes: [..]|null}: `len` pattern bytes
-/// (pattern_fill), either plain or chunk-encoded with the given sizes (last size repeats).
-/// Writing stops as soon as a complete response has been read.
-async fn exchange_streaming(stream: &mut TcpStream, buf: &mut Vec<u8>, raw: &[u8], spec: &Value, head_request: bool,
-                            timeout: Duration) -> Value {
-    let (mut rd, mut wr) = stream.split();
-    let written = std::sync::atomic::AtomicU64::new(0);
-    let writer = async {
-        if !write_segmented(&mut wr, raw, spec).await {
-            return Some("write error while sending the head".to_string());
-        }
-        let g = match spec.get("gen_body") {
-            Some(g) if g.is_object() => g,
-            _ => {
-                let _ = wr.flush().await;
-                return None;
-            }
-        };
-        let len = g.get("len").and_then(|x| x.as_u64()).unwrap_or(0);
-        let seed = g.get("seed").and_then(|x| x.as_u64()).unwrap_or(0);
-        let chunk_sizes: Option<Vec<u64>> = g.get("chunk_sizes").and_then(|x| x.as_array())
-            .map(|a| a.iter().map(|n| n.as_u64().unwrap_or(1).max(1)).collect());
-        let block: usize = 1 << 16;
-        let mut tmp: Vec<u8> = Vec::new();
-        let mut sent: u64 = 0;
-        match chunk_sizes {
-            None => {
-                while sent < len {
-                    let n = (len - sent).min(block as u64) as usize;
-                    pattern_fill(&mut tmp, sent, n, seed);
-                    if let Err(e) = wr.write_all(&tmp).await {
-                        return Some(format!("write error after {} body bytes: {}", sent, e));
-                    }
-                    sent += n as u64;
-                    written.store(sent, Ordering::SeqCst);
-                }
-            }
-            Some(sizes) => {
-                let mut i = 0usize;
-                while sent < len {
-                    let cs = if sizes.is_empty() { len } else { sizes[i.min(sizes.len() - 1)] }.min(len - sent);
-                    i += 1;
-                    if let Err(e) = wr.write_all(format!("{:x}\r\n", cs).as_bytes()).await {
-                        return Some(format!("write error after {} body bytes: {}", sent, e));
-                    }
-                    let mut left = cs;
-                    while left > 0 {
-                        let n = left.min(block as u64) as usize;
-                        pattern_fill(&mut tmp, sent, n, seed);
-                        if let Err(e) = wr.write_all(&tmp).await {
-                            return Some(format!("write error after {} body bytes: {}", sent, e));
-                        }
-                        sent += n as u64;
-                        left -= n as u64;
-                        written.store(sent, Ordering::SeqCst);
-                    }
-                    if let Err(e) = wr.write_all(b"\r\n").await {
-                        return Some(format!("write error after {} body bytes: {}", sent, e));
-                    }
-                    let _ = wr.flush().await;
-                }
-                if let Err(e) = wr.write_all(b"0\r\n\r\n").await {
-                    return Some(format!("write error after {} body bytes: {}", sent, e));
-                }
-            }
-        }
-        let _ = wr.flush().await;
-        None
-    };
-    let reader = read_response(&mut rd, buf, head_request, timeout);
-    tokio::pin!(writer);
-    tokio::pin!(reader);
-    let mut wres: Option<Option<String>> = None;
-    let mut resp = loop {
-        tokio::select! {
-            biased;
-            r = &mut reader => break r,
-            w = &mut writer, if wres.is_none() => wres = Some(w),
-        }
-    };
-    resp["write_completed"] = json!(matches!(wres, Some(None)));
-    if let Some(Some(e)) = wres {
-        resp["write_error"] = json!(e);
-    }
-    resp["sent_body"] = json!(written.load(Ordering::SeqCst));
-    resp
-}
-
-async fn connect_from(local_ip: Ipv4Addr, local_port: u16, proxy_port: u16) -> Result<(TcpSocket, u16), String> {
-    // bind first so that the source port is known before the connection exists
-    let mut last = String::new();
-    for _ in 0..50 {
-        let sock = TcpSocket::new_v4().map_err(|e| e.to_string())?;
-        let _ = sock.set_reuseaddr(true);
-        match sock.bind(SocketAddr::from((local_ip, local_port))) {
-            Ok(()) => {
-                let p = sock.local_addr().map_err(|e| e.to_string())?.port();
-                if p == proxy_port {
-                    continue;
-                }
-                return Ok((sock, p));
-            }
-            Err(e) => {
-                last = e.to_string();
-                tokio::time::sleep(Duration::from_millis(20)).await;
-            }
-        }
-    }
-    Err(format!("cannot bind {}:{}: {}", local_ip, local_port, last))
-}
-
-async fn run_connection(
-    c: Value,
-    proxy_port: u16,
-    shared: SharedState,
-    env: Arc<Env>,
-    snaps: Arc<Mutex<Vec<Value>>>,
-    expected: Arc<Mutex<HashMap<String, usize>>>,
-    default_timeout: u64,
-) -> Value {
-    let id = c.get("id").cloned().unwrap_or(Value::Null);
-    let mut out = json!({"id": id, "local_port": Value::Null, "connect_error": Value::Null,
-                         "responses": [], "trailing_b64": "", "eof": false, "error": Value::Null});
-    let local_port = c.get("local_port").and_then(|x| x.as_u64()).unwrap_or(0) as u16;
-    let timeout = Duration::from_millis(c.get("timeout_ms").and_then(|x| x.as_u64()).unwrap_or(default_timeout));
-    // optional source address (any 127.x.y.z is local): the stand-in audit map, like the kernel's, is keyed by port only
-    let local_ip: Ipv4Addr = match c.get("local_ip").and_then(|x| x.as_str()) {
-        Some(t) => match t.parse() {
-            Ok(ip) => ip,
-            Err(e) => {
-                out["connect_error"] = json!(format!("local_ip: {}", e));
-                return out;
-            }
-        },
-        None => Ipv4Addr::LOCALHOST,
-    };
-    let (sock, port) = match connect_from(local_ip, local_port, proxy_port).await {
-        Ok(x) => x,
-        Err(e) => {
-            out["connect_error"] = json!(e);
-            return out;
-        }
-    };
-    out["local_port"] = json!(port);
-    if let Some(a) = c.get("audit") {
-        if !a.is_null() {
-            match audit_record(a, &env) {
-                Ok(r) => hooks::insert(port, r),
-                Err(e) => {
-                    out["error"] = json!(e);
-                    return out;
-                }
-            }
-        }
-    }
-    if let Err(e) = run_ops(c.get("ops_before_connect"), &shared, &env, &snaps).await {
-        out["error"] = json!(e);
-        return out;
-    }
-    // what the proxy will find for this source port decides whether it opens an upstream connection
-    if let Some(r) = hooks::AUDIT.lock().unwrap().get(&port) {
-        let dest = record_dest(r);
-        if env.mocks.contains(&dest) {
-            *expected.lock().unwrap().entry(dest).or_insert(0) += 1;
-        }
-    }
-    let mut stream = match tokio::time::timeout(
-        Duration::from_secs(10),
-        sock.connect(SocketAddr::from((Ipv4Addr::LOCALHOST, proxy_port))),
-    )
-    .await
-    {
-        Ok(Ok(s)) => s,
-        Ok(Err(e)) => {
-            out["connect_error"] = json!(e.to_string());
-            return out;
-        }
-        Err(_) => {
-            out["connect_error"] = json!("connect timeout");
-            return out;
-        }
-    };
-    let _ = stream.set_nodelay(true);
-    let empty = Vec::new();
-    let reqs = c.get("requests").and_then(|x| x.as_array()).unwrap_or(&empty);
-    let pipelined = c.get("pipelined").and_then(|x| x.as_bool()).unwrap_or(false);
-    let mut raws: Vec<Vec<u8>> = Vec::new();
-    for r in reqs {
-        match bytes_field(r, "raw") {
-            Ok(Some(b)) => raws.push(b),
-            Ok(None) => {
-                out["error"] = json!("request without raw/raw_b64");
-                return out;
-            }
-            Err(e) => {
-                out["error"] = json!(e);
-                return out;
-            }
-        }
-    }
-    let mut buf: Vec<u8> = Vec::new();
-    let mut responses: Vec<Value> = Vec::new();
-    if pipelined {
-        let mut all = Vec::new();
-        for b in &raws {
-            all.extend_from_slice(b);
-        }
-        let _ = stream.write_all(&all).await;
-        let _ = stream.flush().await;
-        for b in &raws {
-            let resp = read_response(&mut stream, &mut buf, b.starts_with(b"HEAD "), timeout).await;
-            let done = resp["complete"] != json!(true);
-            responses.push(resp);
-            if done {
-                break;
-            }
-        }
-    } else {
-        for (i, b) in raws.iter().enumerate() {
-            if let Err(e) = run_ops(reqs[i].get("ops_before"), &shared, &env, &snaps).await {
-                out["error"] = json!(e);
-                break;
-            }
-            let t = reqs[i].get("timeout_ms").and_then(|x| x.as_u64()).map(Duration::from_millis).unwrap_or(timeout);
-            // optional split write: send the first `split_at` bytes, pause, then the rest
-            if reqs[i].get("gen_body").map(|g| g.is_object()).unwrap_or(false) || reqs[i].get("write_sizes").is_some() {
-                let resp = exchange_streaming(&mut stream, &mut buf, b, &reqs[i], b.starts_with(b"HEAD "), t).await;
-                let done = resp["complete"] != json!(true);
-                responses.push(resp);
-                if let Err(e) = run_ops(reqs[i].get("ops_after"), &shared, &env, &snaps).await {
-                    out["error"] = json!(e);
-                    break;
-                }
-                if done {
-                    break;
-                }
-                continue;
-            }
-            let split = reqs[i].get("split_at").and_then(|x| x.as_u64()).map(|n| (n as usize).min(b.len()));
-            let werr = match split {
-                Some(n) => {
-                    let r1 = stream.write_all(&b[..n]).await;
-                    let _ = stream.flush().await;
-                    tokio::time::sleep(Duration::from_millis(reqs[i].get("split_pause_ms").and_then(|x| x.as_u64()).unwrap_or(20))).await;
-                    r1.and(stream.write_all(&b[n..]).await)
-                }
-                None => stream.write_all(b).await,
-            };
-            let _ = stream.flush().await;
-            let mut resp = read_response(&mut stream, &mut buf, b.starts_with(b"HEAD "), t).await;
-            if let Err(e) = werr {
-                resp["write_error"] = json!(e.to_string());
-            }
-            let done = resp["complete"] != json!(true);
-            responses.push(resp);
-            if let Err(e) = run_ops(reqs[i].get("ops_after"), &shared, &env, &snaps).await {
-                out["error"] = json!(e);
-                break;
-            }
-            if done {
-                break;
-            }
-        }
-    }
-    out["responses"] = Value::Array(responses);
-    if let Err(e) = run_ops(c.get("ops_before_close"), &shared, &env, &snaps).await {
-        out["error"] = json!(e);
-    }
-    // close: half-close our side, collect whatever the proxy still sends, until EOF
-    let _ = stream.shutdown().await;
-    let mut tmp = vec![0u8; 65536];
-    let mut eof = false;
-    loop {
-        match tokio::time::timeout(Duration::from_millis(2000), stream.read(&mut tmp)).await {
-            Ok(Ok(0)) | Ok(Err(_)) => {
-                eof = true;
-                break;
-            }
-            Ok(Ok(n)) => buf.extend_from_slice(&tmp[..n]),
-            Err(_) => break,
-        }
-    }
-    out["trailing_b64"] = json!(b64e(&buf));
-    out["eof"] = json!(eof);
-    drop(stream);
-    out
-}
-
-async fn run_scenario(sc: Value, env: Arc<Env>) -> Value {
-    let name = sc.get("name").cloned().unwrap_or(Value::Null);
-    let proxy_port = match sc.get("proxy_port").and_then(|x| x.as_u64()) {
-        Some(p) => p as u16,
-        None => return json!({"name": name, "ok": false, "error": "proxy_port missing"}),
-    };
-    let default_timeout = sc.get("timeout_ms").and_then(|x| x.as_u64()).unwrap_or(10000);
-
-    // ---- reset the process-global verification state
-    hooks::enable();
-    hooks::AUDIT.lock().unwrap().clear();
-    let _ = hooks::take_trace();
-    hooks::FAIL_REMOVE.store(sc.get("fail_remove").and_then(|x| x.as_bool()).unwrap_or(false), Ordering::SeqCst);
-    PANICS.lock().unwrap().clear();
-    *BARRIERS.lock().unwrap() = None;
-
-    let mut replies: HashMap<String, Vec<(Value, bool)>> = HashMap::new();
-    if let Some(m) = sc.get("replies").and_then(|x| x.as_object()) {
-        for (host, list) in m {
-            let v = list.as_array().cloned().unwrap_or_default();
-            replies.insert(host.clone(), v.into_iter().map(|s| (s, false)).collect());
-        }
-    }
-    let rec = Arc::new(ScenarioRec {
-        conns: Mutex::new(Vec::new()),
-        replies: Mutex::new(replies),
-        default_reply: sc.get("default_reply").cloned().unwrap_or(json!({})),
-        notify: Notify::new(),
-        capture: sc.get("upstream_capture").and_then(|x| x.as_u64()).map(|n| n as usize),
-    });
-    *CURRENT.lock().unwrap() = Some(rec.clone());
-
-    let mut shared = SharedState::start_all();
-    let snaps = Arc::new(Mutex::new(Vec::new()));
-    let expected = Arc::new(Mutex::new(HashMap::new()));
-    let mut error: Option<String> = None;
-    for (_, rt) in KILLABLE.lock().unwrap().drain(..) {
-        rt.shutdown_background();
-    }
-    if let Some(list) = sc.get("killable").and_then(|x| x.as_array()) {
-        for a in list {
-            if let Err(e) = make_killable(&mut shared, a.as_str().unwrap_or("")) {
-                error = Some(e);
-            }
-        }
-    }
-    let shared = shared;
-    kill_helpers();
-    if let Some(m) = sc.get("exec_helpers").and_then(|x| x.as_object()) {
-        for (name, argv) in m {
-            if let Err(e) = spawn_exec_helper(name, argv).await {
-                error = Some(e);
-            }
-        }
-    }
-
-    // ---- policy and key in force
-    if let Some(rules) = sc.get("rules").and_then(|x| x.as_object()) {
-        for (endpoint, item) in rules {
-            if let Err(e) = set_rules(&shared, endpoint, item).await {
-                error = Some(e);
-            }
-        }
-    }
-    if let Some(k) = sc.get("key") {
-        if !k.is_null() {
-            if let Err(e) = set_key(&shared, k).await {
-                error = Some(e);
-            }
-        }
-    }
-    if let Some(list) = sc.get("pre_audit").and_then(|x| x.as_array()) {
-        for item in list {
-            let port = item.get("port").and_then(|x| x.as_u64()).unwrap_or(0) as u16;
-            match audit_record(item.get("audit").unwrap_or(&Value::Null), &env) {
-                Ok(r) => hooks::insert(port, r),
-                Err(e) => error = Some(e),
-            }
-        }
-    }
-
-    // ---- optional: a real ProxyAgentStatusTask publishing status.json every `status_task_ms`
-    *STATUS_DIR.lock().unwrap() = None;
-    if let Some(ms) = sc.get("status_task_ms").and_then(|x| x.as_u64()) {
-        let dir = std::path::PathBuf::from(std::env::var("E2E_SCRATCH").unwrap_or_default()).join(format!("status.{}", proxy_port));
-        let _ = std::fs::remove_dir_all(&dir);
-        let task = gpa::proxy_agent_status::ProxyAgentStatusTask::new(
-            Duration::from_millis(ms.max(2)),
-            dir.clone(),
-            shared.get_cancellation_token(),
-            shared.get_key_keeper_shared_state(),
-            shared.get_agent_status_shared_state(),
-        );
-        tokio::spawn(async move { task.start().await });
-        *STATUS_DIR.lock().unwrap() = Some(dir);
-    }
-
-    // ---- the real listener
-    let server = ProxyServer::new(proxy_port, &shared);
-    let server_task = tokio::spawn(async move { server.start().await });
-    let status = shared.get_agent_status_shared_state();
-    let mut listening = false;
-    for _ in 0..20000 {
-        let st = status.get_module_status(AgentStatusModule::ProxyServer).await;
-        if st.status == ModuleState::RUNNING {
-            listening = true;
-            break;
-        }
-        if server_task.is_finished() {
-            break;
-        }
-        tokio::time::sleep(Duration::from_micros(500)).await;
-    }
-    if !listening {
-        error = Some(format!(
-            "proxy listener did not start on port {}: {}",
-            proxy_port,
-            status.get_module_status(AgentStatusModule::ProxyServer).await.message
-        ));
-    }
-
-    // ---- client connections
-    let mut conn_results: Vec<Value> = Vec::new();
-    if error.is_none() {
-        if let Err(e) = run_ops(sc.get("ops_before"), &shared, &env, &snaps).await {
-            error = Some(e);
-        }
-    }
-    if error.is_none() {
-        let empty = Vec::new();
-        let conns = sc.get("connections").and_then(|x| x.as_array()).unwrap_or(&empty);
-        if sc.get("concurrent").and_then(|x| x.as_bool()).unwrap_or(false) {
-            let mut handles = Vec::new();
-            for c in conns {
-                handles.push(tokio::spawn(run_connection(
-                    c.clone(), proxy_port, shared.clone(), env.clone(), snaps.clone(), expected.clone(), default_timeout,
-                )));
-            }
-            for h in handles {
-                conn_results.push(h.await.unwrap_or_else(|e| json!({"error": format!("driver task failed: {}", e)})));
-            }
-        } else {
-            for c in conns {
-                conn_results.push(
-                    run_connection(c.clone(), proxy_port, shared.clone(), env.clone(), snaps.clone(), expected.clone(), default_timeout).await,
-                );
-            }
-        }
-        if let Err(e) = run_ops(sc.get("ops_after"), &shared, &env, &snaps).await {
-            error = Some(e);
-        }
-    }
-
-    // ---- drain: every upstream connection the proxy opened has been accepted and has seen EOF
-    let want: HashMap<String, usize> = expected.lock().unwrap().clone();
-    let drained = tokio::time::timeout(Duration::from_millis(sc.get("drain_timeout_ms").and_then(|x| x.as_u64()).unwrap_or(5000)), async {
-        loop {
-            let notified = rec.notify.notified();
-            tokio::pin!(notified);
-            notified.as_mut().enable();
-            let ok = {
-                let conns = rec.conns.lock().unwrap();
-                let mut have: HashMap<&str, usize> = HashMap::new();
-                for c in conns.iter() {
-                    *have.entry(c.host.as_str()).or_insert(0) += 1;
-                }
-                conns.iter().all(|c| c.closed) && want.iter().all(|(h, n)| have.get(h.as_str()).copied().unwrap_or(0) >= *n)
-            };
-            if ok {
-                break;
-            }
-            let _ = tokio::time::timeout(Duration::from_millis(50), notified).await;
-        }
-    })
-    .await
-    .is_ok();
-
-    // ---- collect
-    let summary = summaries(&shared).await;
-    let status_file = status_json().await;
-    *STATUS_DIR.lock().unwrap() = None;
-    shared.cancel_cancellation_token();
-    let _ = tokio::time::timeout(Duration::from_secs(5), server_task).await;
-    *CURRENT.lock().unwrap() = None;
-    let mut upstream = serde_json::Map::new();
-    for m in &env.mocks {
-        upstream.insert(m.clone(), json!([]));
-    }
-    for c in rec.conns.lock().unwrap().iter() {
-        let item = json!({"peer_port": c.peer_port, "nbytes": c.total, "bytes_b64": b64e(&c.bytes),
-                          "requests": c.requests.iter().map(|(a, b, e)| json!([a, b, e])).collect::<Vec<_>>(),
-                          "replies": c.replies, "closed": c.closed, "request_info": c.infos});
-        upstream.get_mut(&c.host).and_then(|v| v.as_array_mut()).map(|a| a.push(item));
-    }
-    let stray = std::mem::take(&mut *STRAY.lock().unwrap());
-    let result = json!({
-        "name": name,
-        "ok": error.is_none(),
-        "error": error,
-        "proxy_port": proxy_port,
-        "connections": conn_results,
-        "upstream": upstream,
-        "expected_upstream": want,
-        "audit_map": snapshot_json(),
-        "trace": trace_json(hooks::take_trace()),
-        "summary": summary,
-        "status_json": status_file,
-        "snapshots": snaps.lock().unwrap().clone(),
-        "drained": drained,
-        "stray_upstream": stray,
-        "panics": PANICS.lock().unwrap().clone(),
-        "helpers": HELPERS.lock().unwrap().iter().map(|(n, h)| (n.clone(), json!({"pid": h.child.id(), "exe_before": h.exe_before, "exe_after": h.exe_after}))).collect::<serde_json::Map<String, Value>>(),
-        "self_pid": std::process::id(),
-        "helper_pid": env.helper_pid,
-    });
-    hooks::FAIL_REMOVE.store(false, Ordering::SeqCst);
-    kill_helpers();
-    for (_, rt) in KILLABLE.lock().unwrap().drain(..) {
-        rt.shutdown_background();
-    }
-    result
-}
-
-// ------------------------------------------------------------------------------------------
-// process set-up
-// ------------------------------------------------------------------------------------------
+// thin entry point: the driver is compiled inside the crate (hook H6, src/drivers/e2e.rs)
 fn main() {
-    let scratch = std::env::var("E2E_SCRATCH").expect("E2E_SCRATCH must name a scratch directory");
-    let scratch = std::path::PathBuf::from(scratch);
-    for d in ["logs", "events", "keys"] {
-        std::fs::create_dir_all(scratch.join(d)).expect("create scratch dirs");
-    }
-    // results go to the original stdout; the agent's console log (println!) goes to a file
-    let mut out = unsafe {
-        let keep = libc::dup(1);
-        let log = std::fs::OpenOptions::new().create(true).append(true).open(scratch.join("agent_stdout.log")).expect("agent_stdout.log");
-        libc::dup2(std::os::unix::io::AsRawFd::as_raw_fd(&log), 1);
-        std::fs::File::from_raw_fd(keep)
-    };
-    // configuration beside our own executable, before the library touches it (DESIGN 1.7)
-    let exe_dir = std::env::current_exe().unwrap().parent().unwrap().to_path_buf();
-    let cfg = json!({
-        "logFolder": scratch.join("logs"), "eventFolder": scratch.join("events"), "latchKeyFolder": scratch.join("keys"),
-        "monitorIntervalInSeconds": 60, "pollKeyStatusIntervalInSeconds": 15, "hostGAPluginSupport": 1,
-        "ebpfProgramName": "ebpf_cgroup.o", "cgroupRoot": "/sys/fs/cgroup", "fileLogLevel": "Trace"
-    });
-    std::fs::write(exe_dir.join("proxy-agent.json"), serde_json::to_vec_pretty(&cfg).unwrap()).expect("write proxy-agent.json");
-    let _ = gpa::common::config::get_logs_dir();
-
-    if std::env::var("E2E_FILE_LOG").map(|v| v != "0").unwrap_or(true) {
-        use proxy_agent_shared::logger::{logger_manager, rolling_logger::RollingLogger};
-        logger_manager::set_logger_level(gpa::common::config::get_file_log_level());
-        let mut loggers = HashMap::new();
-        loggers.insert(
-            gpa::common::logger::AGENT_LOGGER_KEY.to_string(),
-            RollingLogger::create_new(scratch.join("logs"), "ProxyAgent.log".to_string(), 10 * 1024 * 1024, 5),
-        );
-        loggers.insert(
-            gpa::proxy::proxy_connection::ConnectionLogger::CONNECTION_LOGGER_KEY.to_string(),
-            RollingLogger::create_new(scratch.join("logs"), "ProxyAgent.Connection.log".to_string(), 10 * 1024 * 1024, 5),
-        );
-        logger_manager::set_loggers(loggers, gpa::common::logger::AGENT_LOGGER_KEY.to_string());
-    }
-
-    let prev = std::panic::take_hook();
-    std::panic::set_hook(Box::new(move |info| {
-        PANICS.lock().unwrap().push(info.to_string());
-        prev(info);
-    }));
-
-    let mut helper = std::process::Command::new("sleep").arg("1000000").spawn().expect("spawn helper process");
-    let threads: usize = std::env::var("E2E_THREADS").ok().and_then(|v| v.parse().ok()).unwrap_or(2);
-    let rt = if threads == 0 {
-        tokio::runtime::Builder::new_current_thread().enable_all().build().unwrap()
-    } else {
-        tokio::runtime::Builder::new_multi_thread().worker_threads(threads).enable_all().build().unwrap()
-    };
-    let mocks_spec = std::env::var("E2E_MOCKS").unwrap_or_else(|_| DEFAULT_MOCKS.to_string());
-    let helper_pid = helper.id();
-    rt.block_on(async {
-        let mut bound = Vec::new();
-        let mut bind_errors = Vec::new();
-        for addr in mocks_spec.split(',').map(|s| s.trim()).filter(|s| !s.is_empty()) {
-            let mut ok = false;
-            for _ in 0..50 {
-                match TcpListener::bind(addr).await {
-                    Ok(l) => {
-                        tokio::spawn(mock_listener(l, addr.to_string()));
-                        bound.push(addr.to_string());
-                        ok = true;
-                        break;
-                    }
-                    Err(e) => {
-                        if bind_errors.len() < 20 {
-                            bind_errors.push(format!("{}: {}", addr, e));
-                        }
-                        tokio::time::sleep(Duration::from_millis(20)).await;
-                    }
-                }
-            }
-            if !ok {
-                let _ = writeln!(out, "{}", json!({"ok": false, "fatal": format!("cannot bind mock host {}", addr), "detail": bind_errors}));
-                return;
-            }
-        }
-        let env = Arc::new(Env { mocks: bound, helper_pid });
-        let stdin = std::io::stdin();
-        let mut line = String::new();
-        loop {
-            line.clear();
-            match stdin.read_line(&mut line) {
-                Ok(0) | Err(_) => break,
-                Ok(_) => {}
-            }
-            if line.trim().is_empty() {
-                continue;
-            }
-            let result = match serde_json::from_str::<Value>(&line) {
-                Err(e) => json!({"ok": false, "error": format!("scenario is not JSON: {}", e)}),
-                Ok(sc) => {
-                    let name = sc.get("name").cloned().unwrap_or(Value::Null);
-                    let limit = Duration::from_millis(sc.get("scenario_timeout_ms").and_then(|x| x.as_u64()).unwrap_or(60000));
-                    let h = tokio::spawn(run_scenario(sc, env.clone()));
-                    match tokio::time::timeout(limit, h).await {
-                        Ok(Ok(v)) => v,
-                        Ok(Err(e)) => json!({"name": name, "ok": false, "error": format!("driver task failed: {}", e),
-                                             "panics": PANICS.lock().unwrap().clone()}),
-                        Err(_) => {
-                            *CURRENT.lock().unwrap() = None;
-                            json!({"name": name, "ok": false, "error": "scenario timeout"})
-                        }
-                    }
-                }
-            };
-            let _ = writeln!(out, "{}", result);
-            let _ = out.flush();
-        }
-    });
-    kill_helpers();
-    let _ = helper.kill();
-    let _ = helper.wait();
-    let _ = out.flush();
-    // actor tasks of the last scenario may still be parked; do not wait for them
-    std::process::exit(0);
+    gpa::verif_drivers::e2e::main()
 }
